@@ -31,6 +31,20 @@ type DynRoot struct {
 	X URoot `@@`
 }
 
+// PWord is a grammar node implemented by user code (participle.Parseable): it takes exactly one token with Next().
+type PWord struct {
+	W string
+}
+
+func (p *PWord) Parse(lex *lexer.PeekingLexer) error {
+	t := lex.Next()
+	if t.EOF() {
+		return participle.NextMatch
+	}
+	p.W = t.Value
+	return nil
+}
+
 type gField struct {
 	Name string `json:"name"`
 	Kind string `json:"kind"`
@@ -108,6 +122,10 @@ func buildWith(g *gGrammar, k int, extra ...participle.Option) (b *built, err er
 				t = ifaces[arg]
 			case "unions":
 				t = reflect.SliceOf(ifaces[arg])
+			case "unode":
+				t = reflect.TypeOf(&PWord{})
+			case "unodes":
+				t = reflect.TypeOf([]*PWord{})
 			case "token":
 				t = reflect.TypeOf(lexer.Token{})
 			case "tokens":
@@ -232,6 +250,10 @@ func canon(names map[reflect.Type]string, v reflect.Value, toks map[lexer.Positi
 			} else {
 				fmt.Fprintf(sb, "pos%d", toks[p])
 			}
+			return
+		}
+		if v.Type() == reflect.TypeOf(PWord{}) {
+			fmt.Fprintf(sb, "PWord{W=%q}", v.Field(0).String())
 			return
 		}
 		sb.WriteString(names[v.Type()])
